@@ -973,6 +973,10 @@ func (db *DB) GetProperty(name string) (value string, err error) {
 
 	v := db.s.version()
 	defer v.release()
+	if v.closing {
+		// The empty version that stands in once the session is closed.
+		return "", ErrClosed
+	}
 
 	numFilesPrefix := "num-files-at-level"
 	switch {
@@ -1116,6 +1120,10 @@ func (db *DB) Stats(s *DBStats) error {
 
 	v := db.s.version()
 	defer v.release()
+	if v.closing {
+		// The empty version that stands in once the session is closed.
+		return ErrClosed
+	}
 
 	for level, tables := range v.levels {
 		duration, read, write := db.compStats.getStat(level)
@@ -1146,6 +1154,10 @@ func (db *DB) SizeOf(ranges []util.Range) (Sizes, error) {
 
 	v := db.s.version()
 	defer v.release()
+	if v.closing {
+		// The empty version that stands in once the session is closed.
+		return nil, ErrClosed
+	}
 
 	sizes := make(Sizes, 0, len(ranges))
 	for _, r := range ranges {
